@@ -105,26 +105,52 @@ class PyEKF:
 
 def transfer(it: Interp, ctx: core.Ctx, *, rules=None, funcs=None, files=None, exclude_funcs=()):
     """copy the interpreter's obligations/findings that belong to a property into the check context."""
-    def want(rule, file, func):
+    def want(rule, file, func, stack):
         if rules is not None and rule not in rules:
             return False
         if files is not None and file not in files:
             return False
-        if funcs is not None and not any(func == f or func.endswith("." + f) or func.startswith(f) for f in funcs):
+        # an obligation raised inside a helper belongs to the listed function that called it
+        chain = (func,) + tuple(stack)
+        if funcs is not None and not any(fn_ == f or fn_.endswith("." + f) or fn_.startswith(f) for f in funcs for fn_ in chain):
             return False
         if any(func == f or func.endswith("." + f) for f in exclude_funcs):
             return False
         return True
     n = 0
     for o in it.obligations:
-        if want(o.rule, o.file, o.func):
+        if want(o.rule, o.file, o.func, o.stack):
             ctx.obligations.append(core.Obligation(o.rule, o.where, o.fact, o.ok))
             n += 1
     for f in it.findings:
-        if want(f.rule, f.file, f.func):
+        if want(f.rule, f.file, f.func, f.stack):
             ctx.find(f.rule, f.file, f.func, f.construct, f.msg, f.line)
     return n
 
 
 def count(it: Interp, rule, func=None):
-    return sum(1 for o in it.obligations if o.rule == rule and (func is None or o.func == func or o.func.endswith("." + func)))
+    return sum(1 for o in it.obligations if o.rule == rule and (func is None or any(q == func or q.endswith("." + func) for q in (o.func,) + tuple(o.stack))))
+
+
+def events_of(it: Interp, func: str, kinds=("store", "return")):
+    """the events that happen while `func` runs -- in its own body or in a function it calls -- each with `rpath`, the branch conditions
+    relative to func's entry (call-site conditions of the frames below func + the event's own).  A `return` of a callee is not a return of func."""
+    out = []
+    for e in it.events:
+        if e["kind"] not in kinds:
+            continue
+        st = e.get("stack", ())
+        if func not in st:
+            continue
+        i = len(st) - 1 - list(reversed(st)).index(func)
+        inner = i < len(st) - 1
+        if inner and e["kind"] == "return":
+            continue
+        rp = []
+        for sp in e.get("sitepaths", ())[i + 1:]:
+            rp += list(sp)
+        e2 = dict(e)
+        e2["rpath"] = rp + list(e["path"])
+        e2["inner"] = inner
+        out.append(e2)
+    return out
